@@ -99,24 +99,39 @@ pub fn mismatch_detail(
 }
 
 /// Builds the automaton of a case with its own spec (or an overriding one).
-pub fn build_case(case: &Case, spec: Spec) -> Result<Pma<u32>, daachorse::errors::DaachorseError> {
-    pma::build(spec, &case.patterns, &case.values)
+/// Builds the automaton of a case. A construction that fails — error *or panic* — on a valid
+/// collection is C10's business: the other properties quantify over successfully built automata,
+/// so for them it is recorded (and makes the run inconclusive), never reported as their violation.
+pub fn build_case(case: &Case, spec: Spec) -> Result<Pma<u32>, String> {
+    build_guarded(spec, &case.patterns, &case.values)
 }
 
-pub fn block_len(p: &Pma<u32>) -> usize {
+pub fn build_guarded<V: Copy + TryFrom<usize>>(spec: Spec, patterns: &[Vec<u8>], values: &[V]) -> Result<Pma<V>, String> {
+    let r = std::panic::catch_unwind(std::panic::AssertUnwindSafe(|| pma::build(spec, patterns, values)));
+    match r {
+        Ok(Ok(p)) => Ok(p),
+        Ok(Err(e)) => Err(format!("rejected: {e}")),
+        Err(e) => {
+            let msg = e.downcast_ref::<String>().cloned().or_else(|| e.downcast_ref::<&str>().map(|s| (*s).to_string())).unwrap_or_default();
+            Err(format!("PANICKED: {msg}"))
+        }
+    }
+}
+
+pub fn block_len<V: Copy>(p: &Pma<V>) -> usize {
     match p.mapper() {
         None => 256,
         Some((_, asz)) => (asz.next_power_of_two().max(2)) as usize,
     }
 }
 
-pub fn num_blocks(p: &Pma<u32>) -> usize {
+pub fn num_blocks<V: Copy>(p: &Pma<V>) -> usize {
     let (len, _) = p.lens();
     len / block_len(p)
 }
 
 /// Evidence statistics about the layout actually produced (multi-block, eviction happened).
-pub fn layout_stats(rep: &mut Report, p: &Pma<u32>, spec: &Spec) -> (usize, bool) {
+pub fn layout_stats<V: Copy>(rep: &mut Report, p: &Pma<V>, spec: &Spec) -> (usize, bool) {
     let blocks = num_blocks(p);
     let nfb = spec.nfb.unwrap_or(16) as usize;
     let evicted = blocks > nfb;
@@ -137,12 +152,17 @@ pub fn trie_for(case: &Case, spec: &Spec) -> SymTrie {
 }
 
 pub fn structure(ctx: &Ctx, p: &Pma<u32>, trie: Option<&SymTrie>) -> StructReport {
-    check_structure(p, trie, &Opts { transition_cap: ctx.transition_cap(), outputs_head_only: false })
+    check_structure(p, trie, &Opts { transition_cap: ctx.transition_cap(), outputs_head_only: false }, |v| v)
+}
+
+/// Closure / ranking only, for automata over any value type.
+pub fn structure_untyped<V: Copy>(ctx: &Ctx, p: &Pma<V>) -> StructReport {
+    check_structure(p, None, &Opts { transition_cap: ctx.transition_cap(), outputs_head_only: false }, |_| 0)
 }
 
 /// Same, but only the head of every output list is compared (C02 / C05 read nothing else).
 pub fn structure_head_only(ctx: &Ctx, p: &Pma<u32>, trie: Option<&SymTrie>) -> StructReport {
-    check_structure(p, trie, &Opts { transition_cap: ctx.transition_cap(), outputs_head_only: true })
+    check_structure(p, trie, &Opts { transition_cap: ctx.transition_cap(), outputs_head_only: true }, |v| v)
 }
 
 /// Records structure statistics into the evidence counters.
